@@ -365,7 +365,14 @@ def write_xml(content, dial):
             if a in fmap and fmap[a] == "ref":
                 body.append('<prov:%s prov:ref=%s/>' % (a[len(PROV):], quoteattr(qname(v[1], used))))
             elif a in fmap:
-                body.append('<prov:%s>%s</prov:%s>' % (a[len(PROV):], _iso(v), a[len(PROV):]))
+                t = _iso(v)
+                if "T00:00:00" in t and "." not in t and pick(2, "xml:end_of_day_time") == 1:
+                    # xsd:dateTime also spells midnight as hour 24 of the day before: the same instant
+                    import datetime as _dt
+                    day = _dt.date.fromisoformat(t[:10]) - _dt.timedelta(days=1)
+                    t = day.isoformat() + "T24:00:00" + t[19:]
+                    pick.features.add("xml:end_of_day_time")
+                body.append('<prov:%s>%s</prov:%s>' % (a[len(PROV):], t, a[len(PROV):]))
             else:
                 body.append(value_el(a, v, used))
         ident = ""
